@@ -33,7 +33,8 @@ type World struct {
 	Prog         *ssa.Program
 	SSA          *ssa.Package
 	CG           *callgraph.Graph
-	TableRefined int // call-graph edges removed by refineTableCalls
+	TableRefined int    // call-graph edges removed by refineTableCalls
+	sharedWhy    string // paramAlwaysFresh: why an argument is build-time memory
 	Files        []string
 	NotAna       []string // go files present but excluded by build constraints
 
